@@ -112,6 +112,7 @@ pub open spec fn strs(v: Seq<String>) -> Seq<Seq<char>> { Seq::new(v.len(), |j: 
 pub open spec fn uris_of(t: StructureTag) -> Seq<Seq<char>> {
     Seq::new(t.payload->C_0@.len(), |j: int| utf8_decode(t.payload->C_0@[j].payload->P_0@))
 }
+pub open spec fn uri_ok(c: StructureTag, s: String) -> bool { (c.payload is P) && valid_utf8(c.payload->P_0@) && s@ == utf8_decode(c.payload->P_0@) }
 pub proof fn lemma_strs_concat(a: Seq<String>, b: Seq<String>) ensures strs(a + b) == strs(a) + strs(b)
 { assert(strs(a + b) =~= strs(a) + strs(b)); }
 
@@ -136,82 +137,98 @@ pub open spec fn last_prim(s: Seq<StructureTag>, n: int, id: u64) -> Option<Seq<
     if n <= 3 { None } else if s[n - 1].id == id { Some(s[n - 1].payload->P_0@) } else { last_prim(s, n - 1, id) }
 }
 
-//@lift name=parse_refs file=src/search.rs fn=parse_refs
+//@lift name=try_parse_refs file=src/search.rs fn=try_parse_refs
+//@ sub "let mut refs = Vec::new();" => "let mut refs: Vec<String> = Vec::new();"
 //@ ret r
-//@ closure at="|t| t.expect_primitive().expect(\"octet string\")" params="t: StructureTag" ret="(o: Vec<u8>)"
-            requires t.payload is P
-            ensures t.payload matches PL::P(b) && o == b
-//@ closure at="|s| s.expect(\"uri\")" params="s: core::result::Result<String, std::string::FromUtf8Error>" ret="(o: String)"
-            requires s is Ok
-            ensures s matches Ok(x) && o == x
+//@ insert before "for uri in t.expect_constructed()? {"
+    let ghost k = t.payload->C_0@;
+//@ loop 1 iter=it
+        invariant
+            it.seq() == k, refs@.len() == it.index@,
+            forall|j: int| #![trigger k[j]] #![trigger refs@[j]] 0 <= j < it.index@ ==> uri_ok(k[j], refs@[j]),
+            t.payload matches PL::C(kv) && kv@ == k,
+//@ insert before "refs.push(String::from_utf8("
+        proof { assert(k[it.index@ as int] == uri); }
+//@ insert before "Some(refs)"
+    proof { assert(strs(refs@) =~= uris_of(t)); }
 //@ spec
-    requires wf_refs(t),
-    ensures strs(r@) == uris_of(t), //# C03.referral_uris_in_order
+    ensures
+        r is Some <==> wf_refs(t), //# C11.malformed_referral_is_rejected_not_a_panic
+        r matches Some(v) ==> strs(v@) == uris_of(t), //# C03.referral_uris_in_order
 //@end
 
-//@lift name=ext_from_wf file=src/result.rs impl="impl\s+From<Tag>\s+for\s+LdapResultExt\s*\{" fn=from
-//@ sub "fn from(t: Tag) -> LdapResultExt" => "fn ext_from_wf(t: Tag) -> LdapResultExt"
+//@lift name=parse_refs file=src/search.rs fn=parse_refs
+//@ ret r
+//@ spec
+    requires wf_refs(t), //# C11.parse_refs_public_api_panics_on_malformed_input_by_contract
+    ensures strs(r@) == uris_of(t),
+//@end
+
+// what a well-formed LDAPResult decodes to
+pub open spec fn decoded(st: StructureTag, r: LdapResultExt) -> bool {
+    st.payload matches PL::C(ch) && {
+        &&& r.0.rc == (be_uint(ch@[0].payload->P_0@) as u32)
+        &&& r.0.matched@ == utf8_decode(ch@[1].payload->P_0@)
+        &&& r.0.text@ == utf8_decode(ch@[2].payload->P_0@)
+        &&& strs(r.0.refs@) == refs_fold(ch@, ch@.len() as int)
+        &&& r.0.ctrls@.len() == 0
+        &&& (match r.1.name { Some(n) => last_prim(ch@, ch@.len() as int, 10) matches Some(b) && n@ == utf8_decode(b), None => last_prim(ch@, ch@.len() as int, 10) is None })
+        &&& (match r.1.val { Some(v) => last_prim(ch@, ch@.len() as int, 11) == Some(v@), None => last_prim(ch@, ch@.len() as int, 11) is None })
+        &&& (match r.2.0 { Some(v) => last_prim(ch@, ch@.len() as int, 7) == Some(v@), None => last_prim(ch@, ch@.len() as int, 7) is None })
+    }
+}
+
+//@lift name=parse_result_ext file=src/result.rs fn=parse_result_ext
 //@ sub "let mut exop_name = None;" => "let mut exop_name: Option<String> = None;"
 //@ sub "let mut exop_val = None;" => "let mut exop_val: Option<Vec<u8>> = None;"
 //@ sub "let mut sasl_creds = None;" => "let mut sasl_creds: Option<Vec<u8>> = None;"
+//@ sub "let mut refs = Vec::new();" => "let mut refs: Vec<String> = Vec::new();"
 //@ ret r
 //@ closure at="|t| t.match_id(Types::Enumerated as u64)" params="t: StructureTag" ret="(o: Option<StructureTag>)"
             ensures o == (if t.id == 10 { Some(t) } else { None })
 //@ closure at="|t| t.expect_primitive()" params="t: StructureTag" ret="(o: Option<Vec<u8>>)"
             ensures o == (match t.payload { PL::P(i) => Some(i), PL::C(_) => None::<Vec<u8>> })
-//@ insert before "match tags.next() {"
-            proof {
-                assert forall|v: Vec<String>| #[trigger] iter_seq::<String, Vec<String>>(v) == v@ by { ax_iter_seq_vec::<String>(v); }
-                assert forall|a: Seq<String>, b: Seq<String>| #[trigger] strs(a + b) == strs(a) + strs(b) by { lemma_strs_concat(a, b); }
-            }
 //@ insert before "let mut tags = t.expect_constructed()"
-        let ghost ch = t.payload->C_0@;
+    let ghost ch = t.payload->C_0@;
 //@ loop 1
-            invariant
-                3 <= pos(ch, tags.remaining()) <= ch.len(), tags.remaining() == ch.skip(pos(ch, tags.remaining())),
-                forall|j: int| 3 <= j < ch.len() ==> wf_component(#[trigger] ch[j]),
-                strs(refs@) == refs_fold(ch, pos(ch, tags.remaining())),
-                match exop_name { Some(n) => last_prim(ch, pos(ch, tags.remaining()), 10) matches Some(b) && n@ == utf8_decode(b), None => last_prim(ch, pos(ch, tags.remaining()), 10) is None },
-                match exop_val { Some(v) => last_prim(ch, pos(ch, tags.remaining()), 11) == Some(v@), None => last_prim(ch, pos(ch, tags.remaining()), 11) is None },
-                match sasl_creds { Some(v) => last_prim(ch, pos(ch, tags.remaining()), 7) == Some(v@), None => last_prim(ch, pos(ch, tags.remaining()), 7) is None },
-            ensures
-                strs(refs@) == refs_fold(ch, ch.len() as int),
-                match exop_name { Some(n) => last_prim(ch, ch.len() as int, 10) matches Some(b) && n@ == utf8_decode(b), None => last_prim(ch, ch.len() as int, 10) is None },
-                match exop_val { Some(v) => last_prim(ch, ch.len() as int, 11) == Some(v@), None => last_prim(ch, ch.len() as int, 11) is None },
-                match sasl_creds { Some(v) => last_prim(ch, ch.len() as int, 7) == Some(v@), None => last_prim(ch, ch.len() as int, 7) is None },
+        invariant
+            t.payload matches PL::C(chv) && chv@ == ch,
+            3 <= pos(ch, tags.remaining()) <= ch.len(), tags.remaining() == ch.skip(pos(ch, tags.remaining())),
+            forall|j: int| 3 <= j < pos(ch, tags.remaining()) ==> wf_component(#[trigger] ch[j]),
+            strs(refs@) == refs_fold(ch, pos(ch, tags.remaining())),
+            match exop_name { Some(n) => last_prim(ch, pos(ch, tags.remaining()), 10) matches Some(b) && n@ == utf8_decode(b), None => last_prim(ch, pos(ch, tags.remaining()), 10) is None },
+            match exop_val { Some(v) => last_prim(ch, pos(ch, tags.remaining()), 11) == Some(v@), None => last_prim(ch, pos(ch, tags.remaining()), 11) is None },
+            match sasl_creds { Some(v) => last_prim(ch, pos(ch, tags.remaining()), 7) == Some(v@), None => last_prim(ch, pos(ch, tags.remaining()), 7) is None },
+        ensures
+            forall|j: int| 3 <= j < ch.len() ==> wf_component(#[trigger] ch[j]),
+            strs(refs@) == refs_fold(ch, ch.len() as int),
+            match exop_name { Some(n) => last_prim(ch, ch.len() as int, 10) matches Some(b) && n@ == utf8_decode(b), None => last_prim(ch, ch.len() as int, 10) is None },
+            match exop_val { Some(v) => last_prim(ch, ch.len() as int, 11) == Some(v@), None => last_prim(ch, ch.len() as int, 11) is None },
+            match sasl_creds { Some(v) => last_prim(ch, ch.len() as int, 7) == Some(v@), None => last_prim(ch, ch.len() as int, 7) is None },
 //@ attr #[verifier::exec_allows_no_decreases_clause]
+//@ insert before "match tags.next() {"
+        proof {
+            assert forall|v: Vec<String>| #[trigger] iter_seq::<String, Vec<String>>(v) == v@ by { ax_iter_seq_vec::<String>(v); }
+            assert forall|a: Seq<String>, b: Seq<String>| #[trigger] strs(a + b) == strs(a) + strs(b) by { lemma_strs_concat(a, b); }
+        }
 //@ spec
-    requires
-        (t is StructureTag) || (t is Null),
-        t matches Tag::StructureTag(st) ==> wf_ldap_result(st),
+    ensures
+        // C11: total -- no expect()/panic!; exactly the RFC 4511 4.1.9 shapes are accepted
+        r is Some <==> wf_ldap_result(t), //# C03+C11.ldap_result_accepted_iff_well_formed
+        r matches Some(x) ==> decoded(t, x), //# C03.every_field_is_what_the_server_encoded
+//@end
+
+//@lift name=LdapResultExt::from file=src/result.rs impl="impl\s+From<Tag>\s+for\s+LdapResultExt\s*\{" fn=from
+//@ sub "fn from(t: Tag) -> LdapResultExt" => "fn ext_from(t: Tag) -> LdapResultExt"
+//@ ret r
+//@ spec
+    requires (t is StructureTag) || (t is Null), //# C11.conversion_is_only_applied_to_decoded_or_null_tags
     ensures
         t is Null ==> r.0.rc == 0 && r.0.matched@ == ""@ && r.0.text@ == ""@ && r.0.refs@.len() == 0 && r.0.ctrls@.len() == 0
             && r.1.name is None && r.1.val is None && r.2.0 is None, //# C03.null_tag_is_empty_success
-        t matches Tag::StructureTag(st) ==> (st.payload matches PL::C(ch) && {
-            &&& r.0.rc == (be_uint(ch@[0].payload->P_0@) as u32) //# C03.result_code_is_the_enumerated_value
-            &&& r.0.matched@ == utf8_decode(ch@[1].payload->P_0@) //# C03.matched_dn_as_sent
-            &&& r.0.text@ == utf8_decode(ch@[2].payload->P_0@) //# C03.diagnostic_text_as_sent
-            &&& strs(r.0.refs@) == refs_fold(ch@, ch@.len() as int) //# C03.referrals_of_every_3_component_in_order
-            &&& r.0.ctrls@.len() == 0
-            &&& (match r.1.name { Some(n) => last_prim(ch@, ch@.len() as int, 10) matches Some(b) && n@ == utf8_decode(b), None => last_prim(ch@, ch@.len() as int, 10) is None }) //# C03.exop_name_from_10
-            &&& (match r.1.val { Some(v) => last_prim(ch@, ch@.len() as int, 11) == Some(v@), None => last_prim(ch@, ch@.len() as int, 11) is None }) //# C03.exop_value_from_11
-            &&& (match r.2.0 { Some(v) => last_prim(ch@, ch@.len() as int, 7) == Some(v@), None => last_prim(ch@, ch@.len() as int, 7) is None }) //# C03.sasl_creds_from_7
-        }),
-//@end
-
-// the same text with no assumption on the tree: every expect()/panic! site is a C11 obligation
-#[verifier::external_body]
-pub fn parse_refs_any(t: StructureTag) -> (r: Vec<String>) { unimplemented!() }
-//@lift name=ext_from_any file=src/result.rs impl="impl\s+From<Tag>\s+for\s+LdapResultExt\s*\{" fn=from canary=skip
-//@ sub "fn from(t: Tag) -> LdapResultExt" => "fn ext_from_any(t: Tag) -> LdapResultExt"
-//@ sub "parse_refs(comp)" => "parse_refs_any(comp)"
-//@ closure at="|t| t.match_id(Types::Enumerated as u64)" params="t: StructureTag" ret="(o: Option<StructureTag>)"
-            ensures o == (if t.id == 10 { Some(t) } else { None })
-//@ closure at="|t| t.expect_primitive()" params="t: StructureTag" ret="(o: Option<Vec<u8>>)"
-            ensures o == (match t.payload { PL::P(i) => Some(i), PL::C(_) => None::<Vec<u8>> })
-//@ attr #[verifier::exec_allows_no_decreases_clause]
-//@ spec
-    requires (t is StructureTag) || (t is Null),
+        t matches Tag::StructureTag(st) ==> (wf_ldap_result(st) ==> decoded(st, r)), //# C03.result_fields_equal_what_the_server_sent
+        t matches Tag::StructureTag(st) ==> (!wf_ldap_result(st) ==> r.0.rc == 2 && r.0.refs@.len() == 0 && r.0.ctrls@.len() == 0
+            && r.1.name is None && r.1.val is None && r.2.0 is None), //# C11.malformed_ldap_result_becomes_protocol_error_not_a_panic
 //@end
 
 } // verus!
